@@ -216,3 +216,186 @@ Proof.
   cbn [map] in tk. subst tk. inversion Hall as [|? ? H0 Hr]; subst.
   pose proof (hm_lcp_all_starts _ _ _ H0 Hr) as Hs. rewrite Hnil in Hs. discriminate.
 Qed.
+
+(* ------------------------------------------------------------------ *)
+(* the same at the level of key/value lists                            *)
+(* ------------------------------------------------------------------ *)
+
+Definition hm_tails (n : nat) (src : kvs) : kvs := map (fun kv => (skipn n (fst kv), snd kv)) src.
+Definition hm_branch (b : bool) (ts : kvs) : kvs :=
+  map (fun kv => (tl (fst kv), snd kv)) (filter (fun kv => starts_with b (fst kv)) ts).
+
+Lemma hm_tails_keys n src : map fst (hm_tails n src) = map (skipn n) (map fst src).
+Proof. unfold hm_tails. rewrite !map_map. reflexivity. Qed.
+
+Lemma hm_filter_keys (f : list bool -> bool) (ts : kvs) :
+  map fst (filter (fun kv => f (fst kv)) ts) = filter f (map fst ts).
+Proof.
+  induction ts as [|kv ts IH]; cbn [filter map]; [reflexivity|].
+  destruct (f (fst kv)); cbn [map]; now rewrite IH.
+Qed.
+
+Lemma hm_branch_keys b ts : map fst (hm_branch b ts) = map (@tl bool) (filter (starts_with b) (map fst ts)).
+Proof. unfold hm_branch. rewrite map_map. cbn [fst]. rewrite <- hm_filter_keys, map_map. reflexivity. Qed.
+
+Lemma hm_fork_left_eq src : fork_left src = hm_branch false src.
+Proof.
+  unfold fork_left, hm_branch. induction src as [|[k v] src IH]; [reflexivity|].
+  cbn [flat_map filter fst snd]. rewrite IH.
+  destruct k as [|[] r]; cbn [starts_with Bool.eqb map app fst snd tl]; reflexivity.
+Qed.
+
+Lemma hm_fork_right_eq src : Forall (fun kv => fst kv <> []) src -> fork_right src = hm_branch true src.
+Proof.
+  unfold fork_right, hm_branch. induction 1 as [|[k v] src Hk Hsrc IH]; [reflexivity|].
+  cbn [flat_map filter fst snd] in *. rewrite IH.
+  destruct k as [|[] r]; cbn [starts_with Bool.eqb map app fst snd tl]; [congruence|reflexivity|reflexivity].
+Qed.
+
+Lemma hm_forall_keys (P : list bool -> Prop) (src : kvs) :
+  Forall (fun kv => P (fst kv)) src <-> Forall P (map fst src).
+Proof. rewrite !Forall_forall. split; intros H x Hx.
+  - apply in_map_iff in Hx as [kv [<- Hkv]]. auto.
+  - apply H. now apply in_map.
+Qed.
+
+Lemma hm_split n kv0 kv1 rest :
+  let src := kv0 :: kv1 :: rest in
+  NoDup (map fst src) -> Forall (fun kv => length (fst kv) = n) src ->
+  let label := lcp_all (fst kv0) (map fst (kv1 :: rest)) in
+  let ts := hm_tails (length label) src in
+  length label < n /\
+  Forall (fun kv => fst kv <> []) ts /\
+  forall b, hm_branch b ts <> [] /\ NoDup (map fst (hm_branch b ts)) /\
+            Forall (fun kv => length (fst kv) = n - length label - 1) (hm_branch b ts).
+Proof.
+  intros src Hnd Hlen label ts.
+  apply (proj1 (hm_forall_keys (fun k => length k = n) src)) in Hlen.
+  assert (Hne : map fst (kv1 :: rest) <> []) by (cbn [map]; congruence).
+  destruct (hm_split_keys n (fst kv0) (map fst (kv1 :: rest)) Hne Hnd Hlen) as (Hlt & Hnd' & Hlen' & Hbr).
+  fold label in Hlt, Hnd', Hlen', Hbr.
+  change (fst kv0 :: map fst (kv1 :: rest)) with (map fst src) in Hnd', Hlen', Hbr.
+  rewrite <- hm_tails_keys in Hnd', Hlen', Hbr. fold ts in Hnd', Hlen', Hbr.
+  split; [exact Hlt|]. split.
+  - apply (proj2 (hm_forall_keys (fun k => k <> []) ts)). rewrite Forall_forall in *. intros t Ht Hnil.
+    specialize (Hlen' t Ht). subst t. cbn [length] in Hlen'. lia.
+  - intros b. split; [|split].
+    + intros Hnil. apply (Hbr b). rewrite <- hm_filter_keys.
+      unfold hm_branch in Hnil. apply map_eq_nil in Hnil. rewrite Hnil. reflexivity.
+    + rewrite hm_branch_keys. apply (hm_nodup_tl b); [now apply NoDup_filter|apply hm_filter_sat].
+    + apply (proj2 (hm_forall_keys (fun k => length k = n - length label - 1) (hm_branch b ts))).
+      rewrite hm_branch_keys.
+      rewrite Forall_forall. intros t Ht. apply in_map_iff in Ht as [x [<- Hx]].
+      apply filter_In in Hx as [Hx _]. rewrite Forall_forall in Hlen'. specialize (Hlen' x Hx).
+      destruct x; cbn [tl length] in *; lia.
+Qed.
+
+(* ------------------------------------------------------------------ *)
+(* build_edge = s_patricia                                             *)
+(* ------------------------------------------------------------------ *)
+
+Lemma hm_build_unfold f kv0 kv1 rest :
+  let src := kv0 :: kv1 :: rest in
+  let label := find_common_prefix (map fst src) in
+  let src' := remove_prefix_map src (length label) in
+  build_edge (S f) src =
+  match fork_left src', fork_right src' with
+  | [], _ | _, [] => Err EAssert
+  | _, _ => bind (build_edge f (fork_left src')) (fun el =>
+            bind (build_edge f (fork_right src')) (fun er => Ok (HEdge label (HFork el er))))
+  end.
+Proof. reflexivity. Qed.
+
+Lemma hm_patricia_unfold f kv0 kv1 rest :
+  let src := kv0 :: kv1 :: rest in
+  let label := lcp_all (fst kv0) (map fst (kv1 :: rest)) in
+  let ts := hm_tails (length label) src in
+  s_patricia (S f) src =
+  match s_patricia f (hm_branch false ts), s_patricia f (hm_branch true ts) with
+  | Some el, Some er => Some (HEdge label (HFork el er))
+  | _, _ => None
+  end.
+Proof. destruct kv0 as [k0 v0]. reflexivity. Qed.
+
+Lemma hm_build_edge_patricia fuel : forall n src, n < fuel -> src <> [] -> NoDup (map fst src) ->
+  Forall (fun kv => length (fst kv) = n) src ->
+  build_edge fuel src = match s_patricia fuel src with Some t => Ok t | None => Err EAssert end
+  /\ s_patricia fuel src <> None.
+Proof.
+  induction fuel as [|f IH]; intros n src Hn Hne Hnd Hlen; [lia|].
+  destruct src as [|kv0 [|kv1 rest]]; [congruence| |].
+  - destruct kv0 as [k0 v0].
+    cbn [build_edge map fst snd find_common_prefix remove_prefix_map s_patricia].
+    split; [reflexivity|discriminate].
+  - destruct (hm_split n kv0 kv1 rest Hnd Hlen) as (Hlt & Hnonempty & Hbr).
+    rewrite hm_build_unfold, hm_patricia_unfold. cbv zeta.
+    change (map fst (kv0 :: kv1 :: rest)) with (fst kv0 :: map fst (kv1 :: rest)).
+    rewrite hm_find_common_prefix by (cbn [map]; congruence).
+    set (label := lcp_all (fst kv0) (map fst (kv1 :: rest))) in *.
+    change (remove_prefix_map (kv0 :: kv1 :: rest) (length label))
+      with (hm_tails (length label) (kv0 :: kv1 :: rest)).
+    set (ts := hm_tails (length label) (kv0 :: kv1 :: rest)) in *.
+    rewrite hm_fork_left_eq, (hm_fork_right_eq _ Hnonempty).
+    destruct (Hbr false) as (Hl1 & Hl2 & Hl3). destruct (Hbr true) as (Hr1 & Hr2 & Hr3).
+    assert (Hm : n - length label - 1 < f) by lia.
+    destruct (IH _ _ Hm Hl1 Hl2 Hl3) as [HLe HLn]. destruct (IH _ _ Hm Hr1 Hr2 Hr3) as [HRe HRn].
+    rewrite HLe, HRe.
+    destruct (s_patricia f (hm_branch false ts)) as [el|]; [|congruence].
+    destruct (s_patricia f (hm_branch true ts)) as [er|]; [|congruence].
+    destruct (hm_branch false ts) as [|x l]; [congruence|].
+    destruct (hm_branch true ts) as [|y r]; [congruence|].
+    cbn [bind]. split; [reflexivity|discriminate].
+Qed.
+
+Lemma build_edge_patricia : forall n src, src <> [] -> NoDup (map fst src) ->
+  Forall (fun kv => length (fst kv) = n) src ->
+  build_edge (S n) src = match s_patricia (S n) src with Some t => Ok t | None => Err EAssert end
+  /\ s_patricia (S n) src <> None.
+Proof. intros n src. apply hm_build_edge_patricia. lia. Qed.
+
+(* ------------------------------------------------------------------ *)
+(* key_bits: range check and binary form                               *)
+(* ------------------------------------------------------------------ *)
+
+Lemma hm_zbit_length_pos v : (0 < v)%Z -> zbit_length v = (Z.log2 v + 1)%Z.
+Proof.
+  intros Hv. unfold zbit_length. destruct v as [|p|p]; try lia.
+  cbn [Z.abs_N N.size Z.of_N].
+  destruct p as [q|q|]; cbn [Pos.size Z.log2]; try rewrite Pos2Z.inj_succ; lia.
+Qed.
+
+Lemma hm_key_fits n k : (0 <= k)%Z -> (Z.of_nat n <? zbit_length k)%Z = true <-> (2 ^ Z.of_nat n <= k)%Z.
+Proof.
+  intros Hk. rewrite Z.ltb_lt.
+  destruct (Z.eq_dec k 0) as [->|Hnz].
+  - change (zbit_length 0) with 0%Z.
+    pose proof (Z.pow_pos_nonneg 2 (Z.of_nat n)) as Hp. lia.
+  - assert (Hpos : (0 < k)%Z) by lia.
+    rewrite (hm_zbit_length_pos k Hpos).
+    rewrite (Z.log2_le_pow2 k (Z.of_nat n) Hpos). lia.
+Qed.
+
+Lemma key_range_iff : forall n k, (k < 0 \/ 2 ^ Z.of_nat n <= k)%Z <-> key_bits n k = Err EDict.
+Proof.
+  intros n k. unfold key_bits.
+  destruct (k <? 0)%Z eqn:Hneg; cbn [orb].
+  - apply Z.ltb_lt in Hneg. split; [reflexivity|]. intros _. left. exact Hneg.
+  - apply Z.ltb_ge in Hneg. pose proof (hm_key_fits n k Hneg) as Hf.
+    destruct (Z.of_nat n <? zbit_length k)%Z.
+    + split; [reflexivity|]. intros _. right. apply Hf. reflexivity.
+    + split; [|discriminate]. intros [Hlt|Hge]; [lia|]. apply Hf in Hge. discriminate.
+Qed.
+
+Lemma key_bits_spec : forall n k, (0 <= k < 2 ^ Z.of_nat n)%Z ->
+  exists bits, key_bits n k = Ok bits /\ length bits = n /\ Z.of_N (of_bits bits) = k.
+Proof.
+  intros n k [Hlo Hhi]. exists (to_bits n (Z.to_N k)). split; [|split].
+  - unfold key_bits. pose proof (hm_key_fits n k Hlo) as Hf.
+    destruct (k <? 0)%Z eqn:Hneg; [apply Z.ltb_lt in Hneg; lia|]. cbn [orb].
+    destruct (Z.of_nat n <? zbit_length k)%Z; [|reflexivity].
+    assert (2 ^ Z.of_nat n <= k)%Z by (apply Hf; reflexivity). lia.
+  - apply to_bits_length.
+  - rewrite of_bits_to_bits; [apply Z2N.id; exact Hlo|].
+    apply N2Z.inj_lt. rewrite Z2N.id by exact Hlo.
+    rewrite N2Z.inj_pow, nat_N_Z. exact Hhi.
+Qed.
